@@ -160,7 +160,9 @@ def _input(draw, labelled, max_obj, max_sp, max_fam, polytomy=False, coherent=Tr
                 sub = list(draw(st.permutations(sub)))
             syn[leaf] = sub
         spec["syn"] = syn
-        if consistent and spec["named"] in (1,) and nobj > 1 and draw(st.integers(0, 3)) == 0:
+        if consistent and spec["named"] in (0, 1) and nobj > 1 and draw(st.integers(0, 3)) == 0:
+            # named == 0: the root is unnamed, so the prescribed root synteny cannot be written
+            # in the document; it is attached through the API (keyed by the root node)
             spec["root_order"] = list(hidden)
     return spec
 
@@ -367,7 +369,8 @@ def spec_document(spec):
         syn = {leaf: list(s) for leaf, s in spec["syn"].items()}
         if spec["root_order"] is not None:
             root_clade = tuple(sorted(ref.nested_leaves(spec["object"])))
-            syn[onames[root_clade]] = list(spec["root_order"])
+            if root_clade in onames:
+                syn[onames[root_clade]] = list(spec["root_order"])
         doc["leaf_syntenies"] = syn
     return doc
 
@@ -376,7 +379,11 @@ def build_input(spec):
     model = _m["model"]
     doc = spec_document(spec)
     if "leaf_syntenies" in doc:
-        return model.SuperReconciliationInput.from_dict(doc)
+        obj = model.SuperReconciliationInput.from_dict(doc)
+        if spec["root_order"] is not None and obj.object_tree not in obj.leaf_syntenies:
+            # unnamed root: the prescribed root synteny is given through the API
+            obj.leaf_syntenies[obj.object_tree] = list(spec["root_order"])
+        return obj
     return model.ReconciliationInput.from_dict(doc)
 
 
